@@ -15,7 +15,7 @@ func init() {
 	register("c17", "Broadcast / Fork / Inform over scripted fake clients: server counts 1..4, every outcome vector over {ok, service error, connection lost} "+
 		"(the slowest server of each completion order plays 'slow'), every completion order for n<=3 and sampled orders for n=4, completions released one at a time through gates; "+
 		"direct oracle: Broadcast ok iff all ok, Fork ok iff some ok, on success the reply is that of a server that succeeded, Inform gives one receipt per server with "+
-		"that server's own reply and own error (nil iff it succeeded); plus vectors whose last server does not answer before the caller's deadline (a context the harness expires once the others have answered; the abandoned call winds up 4 ms later); every case replayed on the Lean model; non-trivial = at least one failing server; distinct = distinct input line",
+		"that server's own reply and own error (nil iff it succeeded); the reply type holds a map the caller pre-populates (a server's payload is inserted into it, as a codec does): on success the caller's reply and every receipt must be exactly one server's value; plus vectors whose last server does not answer before the caller's deadline (a context the harness expires once the others have answered; the abandoned call winds up 4 ms later); every case replayed on the Lean model; non-trivial = at least one failing server; distinct = distinct input line",
 		runC17)
 }
 
@@ -115,7 +115,7 @@ func c17CaseCtx(o *Out, op string, vec []fakeOutcome, order []int, withDeadline 
 	setScenario(sc)
 	xc, _ := mkXClient(n, client.Failfast, 0, client.RandomSelect)
 	defer xc.Close()
-	reply := &fakeReply{Delivery: -1}
+	reply := &fakeReply{Delivery: -1, Seen: map[string]int{"caller-default": 1}}
 	type result struct {
 		err      error
 		receipts []client.Receipt
@@ -203,6 +203,10 @@ func c17CaseCtx(o *Out, op string, vec []fakeOutcome, order []int, withDeadline 
 		if res.err == nil && !okAddrs[reply.Addr] {
 			o.Violate("c17.broadcast.reply", "Broadcast succeeded but the caller's reply was not produced by a server that succeeded", rp)
 		}
+		if res.err == nil && !c17OwnValue(reply) {
+			rp["reply_map_field"] = fmt.Sprint(reply.Seen)
+			o.Violate("c17.broadcast.reply", "Broadcast succeeded but the caller's reply is not the value one server produced: its map field holds "+fmt.Sprint(reply.Seen), rp)
+		}
 	case "fork":
 		o.SpecCase(line, "success="+b(res.err == nil), nontrivial)
 		if (res.err == nil) != someOK {
@@ -210,6 +214,10 @@ func c17CaseCtx(o *Out, op string, vec []fakeOutcome, order []int, withDeadline 
 		}
 		if res.err == nil && !okAddrs[reply.Addr] {
 			o.Violate("c17.fork.reply", "Fork succeeded but the caller's reply was not produced by a server that succeeded", rp)
+		}
+		if res.err == nil && !c17OwnValue(reply) {
+			rp["reply_map_field"] = fmt.Sprint(reply.Seen)
+			o.Violate("c17.fork.reply", "Fork succeeded but the caller's reply is not the value one server produced: its map field holds "+fmt.Sprint(reply.Seen), rp)
 		}
 	default:
 		var rs []string
@@ -221,6 +229,9 @@ func c17CaseCtx(o *Out, op string, vec []fakeOutcome, order []int, withDeadline 
 			want := idx >= 0 && idx < n && vec[idx] == foOK
 			rep := 0
 			if fr, ok := rc.Reply.(*fakeReply); ok && rc.Error == nil {
+				if fr.Addr == "fake@"+rc.Address && !c17OwnValue(fr) {
+					o.Violate("c17.inform.reply", fmt.Sprintf("receipt of %s does not carry that server's own reply: its map field holds %v", rc.Address, fr.Seen), rp)
+				}
 				if fr.Addr == "fake@"+rc.Address {
 					rep = idx + 1
 				} else {
@@ -243,4 +254,10 @@ func c17CaseCtx(o *Out, op string, vec []fakeOutcome, order []int, withDeadline 
 		sort.Strings(rs)
 		o.SpecCase(line, strings.Join(rs, ","), nontrivial)
 	}
+}
+
+// c17OwnValue: the reply is the value ONE server produced: its map field holds that server's entry
+// and nothing else (not the caller's earlier content, not another server's entry)
+func c17OwnValue(r *fakeReply) bool {
+	return len(r.Seen) == 1 && r.Seen[r.Addr] == 1
 }
